@@ -14,16 +14,25 @@ import gridcheck
 THEOREMS = ["Sympler.C09." + t for t in ["C09_gridOK", "C09_inv_init", "C09_inv_step", "C09_inv_reachable", "C09_iteration_visits_all",
                                          "C09_occupied_exact", "C09_errors", "C09_pos_init", "C09_pos_step", "C09_pos_reachable",
                                          "C09_wrap_exact", "C09_count_conserved"]]
-T2 = ["Sympler.C01." + t for t in ["C01_gen_tables_ok", "C01_static_checks_sound", "C01_links_complete_unique_222a"]]
+T2 = ["Sympler.C01." + t for t in ["C01_gen_tables_ok", "C01_static_checks_sound", "C01_links_complete_unique_222a"]] + \
+     ["Sympler.Cells.Bridge_activate", "Sympler.Cells.Bridge_deactivate"]
+TR = "translator t_celllists (ManagerCell::activateCell / deactivateCell / activateCellLink / deactivateCellLink by symbolic execution of the pointer statements)"
 MODULES = ["Sympler.Grid", "Sympler.GridLemmas", "Sympler.GridBuildLemmas", "Sympler.Cells", "Sympler.CellsLemmas", "Sympler.CellsPosLemmas",
-           "Sympler.CellsSweepLemmas", "Sympler.PairSearch", "Sympler.Store", "Sympler.Gen.CellTablesGen", "Props.C09", "Props.C01Tables"]
+           "Sympler.CellsSweepLemmas", "Sympler.PairSearch", "Sympler.Store", "Sympler.Gen.CellTablesGen", "Sympler.Gen.CellListsGen", "Props.C09", "Props.C01Tables", "Props.CellListsBridge"]
 
 
 def run(ctx):
     ok, out = common.ensure_build("hooks", targets=("sympler",))
     ctx.oblige("hooked build of /repo", ok, out[-300:])
     gridcheck.translate(ctx)
-    common.lean_obligations(ctx, ["Props.C09", "Props.C01Tables", "Sympler.PairSearch", "symdrv"], ["Props.C09", "Props.C01Tables"], THEOREMS + T2, MODULES)
+    try:
+        import os
+        import t_celllists
+        common.write_if_changed(os.path.join(common.LEAN, "Sympler/Gen/CellListsGen.lean"), t_celllists.generate(common.REPO))
+        ctx.oblige(TR, True)
+    except Exception as ex:
+        ctx.oblige(TR, False, repr(ex))
+    common.lean_obligations(ctx, ["Props.C09", "Props.C01Tables", "Props.CellListsBridge", "Sympler.PairSearch", "symdrv"], ["Props.C09", "Props.C01Tables", "Props.CellListsBridge"], THEOREMS + T2, MODULES)
     n = 60 if not ctx.thorough else 1500
     summ, keep = (None, None)
     if ok:
